@@ -17,7 +17,7 @@ import builtins as _builtins
 from .peval import Evaluator, Model, Unsupported, RaisedInModel, ProgramRaised, ReturnValue, _Continue, _Break
 from .source import ClassInfo, FuncInfo, ModuleInfo, norm, const_value
 
-BUILTIN_FUNCS = {"len", "zip", "enumerate", "dict", "list", "tuple", "range", "all", "any", "min", "max", "abs", "int", "slice", "divmod", "pow",
+BUILTIN_FUNCS = {"frozenset", "len", "zip", "enumerate", "dict", "list", "tuple", "range", "all", "any", "min", "max", "abs", "int", "slice", "divmod", "pow",
                  "float", "str", "bool", "sorted", "set", "sum", "round", "reversed", "repr", "iter", "next", "id"}
 BUILTIN_TYPES = {"int": int, "float": float, "str": str, "bool": bool, "dict": dict, "list": list, "tuple": tuple,
                  "set": set, "object": object, "complex": complex, "bytes": bytes, "type": type, "slice": slice}
@@ -119,9 +119,15 @@ class ModelEval(Evaluator):
             if key in g:
                 return g[key]
             v = r[2]
-            if isinstance(v, (ast.Constant, ast.Tuple, ast.List, ast.Dict)):
-                sub = ModelEval(self.tree, _ModuleCtx(r[1]), {}, self.hooks, self.depth, self.shared)
-                return sub.ev(v)
+            if isinstance(v, ast.expr):
+                # module-level constants and tables: evaluated in the defining module's scope (calls such as frozenset(...) included)
+                if self.depth > self.MAX_DEPTH:
+                    raise Unsupported("module-level value %s: nesting too deep" % key)
+                sub = ModelEval(self.tree, _ModuleCtx(r[1]), {}, self.hooks, self.depth + 1, self.shared)
+                try:
+                    return sub.ev(v)
+                except Unsupported as e:
+                    raise Unsupported("module-level value %s: %s" % (key, e))
             raise Unsupported("module-level value %s" % key)
         raise Unsupported("unbound name %s" % what)
 
@@ -477,11 +483,20 @@ class ModelEval(Evaluator):
                 return list(r) if name in ("enumerate", "zip", "reversed") else r
             except (TypeError, ValueError) as e:
                 raise Raised(type(e).__name__, node, str(e))
+        if name == "next" and args and isinstance(args[0], list):
+            # generator expressions are evaluated eagerly into lists: next(gen, default) takes the first element
+            if args[0]:
+                return args[0][0]
+            if len(args) > 1:
+                return args[1]
+            raise Raised("StopIteration", node, "")
         f = getattr(_builtins, name)
         try:
             return f(*args, **kwargs)
         except (TypeError, ValueError) as e:
             raise Raised(type(e).__name__, node, str(e))
+        except StopIteration:
+            raise Raised("StopIteration", node, "")
 
     def py_copy(self, v, deep, node=None, memo=None):
         """copy.copy / copy.deepcopy on interpreted objects and containers (model tokens are immutable values)"""
